@@ -98,3 +98,46 @@ func VH_C03_handshake_timeout_never_removes_an_established_session() {
 	verifCover("fired")
 	verifAssert(s.sessions[hs1.sessionID] == est && est.handleState == established, "C03: an unauthenticated duplicate handshake datagram plus a timer never remove an established session")
 }
+
+// Session identifiers: a freshly drawn identifier that collides with a LIVE
+// session is drawn again; a live session is never overwritten (its client and
+// the server would silently stop sharing keys).
+
+var c02Draws int
+var c02Live [4]byte
+
+func c02ScriptedRand(b []byte) (int, error) {
+	c02Draws++
+	if len(b) == 4 && c02Draws == 1 {
+		copy(b, c02Live[:]) // the unlucky draw: the identifier of a live session
+		return 4, nil
+	}
+	r := verifFreshBytes("rand", len(b)) // later draws: arbitrary, but not the same bad luck again
+	copy(b, r)
+	if len(b) == 4 {
+		verifAssume(!hsEq(b, c02Live[:], 4))
+	}
+	return len(b), nil
+}
+
+//verif:prop C02
+//verif:replay none
+//verif:stub crypto/rand.Read = c02ScriptedRand
+//verif:bounds server with one live established session (symbolic identifier); a new handshake whose first identifier draw collides with it, later draws arbitrary but different (100 collisions in a row, a 2^-3200 event, make the server panic by design)
+//verif:cover created
+func VH_C02_new_session_never_takes_over_a_live_sessions_identifier() {
+	hsReset()
+	s, _ := hsServer(false)
+	s.config.HandshakeTimeout = time.Second
+	live := sessState(1)
+	live.handleState = established
+	s.sessions[live.sessionID] = live
+	c02Live, c02Draws = live.sessionID, 0
+	hs := hsNewState()
+	ok := s.setHandshakeState(sessAddr4(10, 9, 9, 9, 999), hs)
+	verifAssert(ok, "C02: the new handshake is tracked")
+	verifCover("created")
+	verifAssert(s.sessions[live.sessionID] == live, "C02: a live session is never replaced by a new handshake whose random identifier collides with it")
+	verifAssert(hs.sessionID != live.sessionID, "C02: the new handshake ends up with an identifier of its own")
+	verifAssert(c02Draws >= 2, "C02: a colliding identifier is drawn again")
+}
